@@ -5,7 +5,9 @@ import (
 	"testing"
 
 	"github.com/pgavlin/dawn/diff"
+	"github.com/pgavlin/dawn/verif/diffcheck"
 	"github.com/pgavlin/dawn/verif/ev"
+	"github.com/pgavlin/dawn/verif/projsim"
 	"github.com/pgavlin/dawn/verif/starval"
 	"go.starlark.net/starlark"
 	"pgregory.net/rapid"
@@ -14,13 +16,17 @@ import (
 var run *ev.Run
 
 func TestMain(m *testing.M) {
+	projsim.MaybeChild()
 	run = ev.Start("C16", "exploration",
 		"rapid draws an old value (string, bytes, tuple, list, dict, set, scalars; nested to depth 3; lengths mostly 0-12, sometimes 100-300, in thorough "+
 			"1500-3000) and derives new by 0-6 edits (insert, delete, replace, swap, nested edit, key add/remove/change, type change) or draws it "+
 			"independently; all three length relations occur. Oracle: Diff==nil iff starlark.Equal; Old()/New() are the given values in the given order at "+
 			"every nesting level; sequences are reconstructed by position from common/delete/add/replace edits (cursors must end at both lengths); mapping "+
-			"edits are exactly the added/removed/changed keys with faithful payloads. Non-trivial = unequal pair containing a sequence pair with both "+
-			"sides non-empty. Distinct by case JSON.",
+			"edits are exactly the added/removed/changed keys with faithful payloads. Rebuild reason: generated projects are built, edited (constants, "+
+			"bodies, helpers, flags, docstrings...) and rebuilt; for every TargetEvaluating that carries an environment diff the differing top-level "+
+			"keys are computed independently from the diff's old and new environments, the reason must read exactly 'k1[, k2..., and kn] changed' in "+
+			"the documented key order, and the attached diff must pass the same reconstruction oracle. Non-trivial = unequal pair containing a "+
+			"sequence pair with both sides non-empty, or a rebuild with an environment diff. Distinct by case JSON.",
 		"values are acyclic; sizes <= 3000",
 	)
 	ev.Main(m, run)
@@ -227,242 +233,6 @@ func (c Case) build() (starlark.Value, starlark.Value) {
 	return old, nv
 }
 
-// ---- oracle ----------------------------------------------------------------------------
-
-type checker struct {
-	seqPairs int // sequence pairs with both sides non-empty
-}
-
-func same(a, b starlark.Value) bool {
-	if a == nil || b == nil {
-		return false
-	}
-	if a.Type() != b.Type() {
-		return false
-	}
-	eq, err := starlark.Equal(a, b)
-	return err == nil && eq
-}
-
-func equal(a, b starlark.Value) bool {
-	eq, err := starlark.Equal(a, b)
-	return err == nil && eq
-}
-
-// faithful checks that d is a faithful diff of (old, new), which are known to be unequal.
-func (ck *checker) faithful(d diff.ValueDiff, old, new starlark.Value, path string) string {
-	if d == nil {
-		return path + ": nil diff for unequal values"
-	}
-	if !same(d.Old(), old) {
-		return fmt.Sprintf("%s: Old() is %s, want the old value %s", path, trunc(d.Old()), trunc(old))
-	}
-	if !same(d.New(), new) {
-		return fmt.Sprintf("%s: New() is %s, want the new value %s", path, trunc(d.New()), trunc(new))
-	}
-	oldS, oldIsS := old.(starlark.Sliceable)
-	newS, newIsS := new.(starlark.Sliceable)
-	oldM, oldIsM := old.(starlark.IterableMapping)
-	newM, newIsM := new.(starlark.IterableMapping)
-	switch dd := d.(type) {
-	case *diff.SliceableDiff:
-		if !oldIsS || !newIsS {
-			return path + ": SliceableDiff for non-sequences"
-		}
-		return ck.seq(dd, oldS, newS, path)
-	case *diff.MappingDiff:
-		if !oldIsM || !newIsM {
-			return path + ": MappingDiff for non-mappings"
-		}
-		return ck.mapping(dd, oldM, newM, path)
-	case *diff.LiteralDiff:
-		if (oldIsS && newIsS) || (oldIsM && newIsM) {
-			return path + ": LiteralDiff for two sequences / two mappings"
-		}
-		return ""
-	default:
-		return fmt.Sprintf("%s: unexpected diff type %T", path, d)
-	}
-}
-
-func (ck *checker) seq(d *diff.SliceableDiff, old, new starlark.Sliceable, path string) string {
-	if old.Len() > 0 && new.Len() > 0 {
-		ck.seqPairs++
-	}
-	i, j := 0, 0
-	for n, ev := range d.Edits() {
-		e, ok := ev.(*diff.Edit)
-		if !ok {
-			return fmt.Sprintf("%s: edit %d is a %T", path, n, ev)
-		}
-		p := fmt.Sprintf("%s.edit[%d:%s]", path, n, string(e.Kind()))
-		k := e.Len()
-		switch e.Kind() {
-		case diff.EditKindCommon:
-			if i+k > old.Len() || j+k > new.Len() {
-				return fmt.Sprintf("%s: common run of %d overruns (i=%d/%d j=%d/%d)", p, k, i, old.Len(), j, new.Len())
-			}
-			for x := 0; x < k; x++ {
-				if !equal(e.Index(x), old.Index(i+x)) || !equal(e.Index(x), new.Index(j+x)) {
-					return fmt.Sprintf("%s: common value %s is not old[%d]=%s and new[%d]=%s", p, trunc(e.Index(x)), i+x, trunc(old.Index(i+x)), j+x, trunc(new.Index(j+x)))
-				}
-			}
-			i, j = i+k, j+k
-		case diff.EditKindDelete:
-			if i+k > old.Len() {
-				return fmt.Sprintf("%s: delete of %d overruns old (i=%d/%d)", p, k, i, old.Len())
-			}
-			for x := 0; x < k; x++ {
-				if !equal(e.Index(x), old.Index(i+x)) {
-					return fmt.Sprintf("%s: deleted value %s is not old[%d]=%s", p, trunc(e.Index(x)), i+x, trunc(old.Index(i+x)))
-				}
-			}
-			i += k
-		case diff.EditKindAdd:
-			if j+k > new.Len() {
-				return fmt.Sprintf("%s: add of %d overruns new (j=%d/%d)", p, k, j, new.Len())
-			}
-			for x := 0; x < k; x++ {
-				if !equal(e.Index(x), new.Index(j+x)) {
-					return fmt.Sprintf("%s: added value %s is not new[%d]=%s", p, trunc(e.Index(x)), j+x, trunc(new.Index(j+x)))
-				}
-			}
-			j += k
-		case diff.EditKindReplace:
-			for x := 0; x < k; x++ {
-				el := e.Index(x)
-				if el == starlark.None {
-					if i >= old.Len() || j >= new.Len() || !equal(old.Index(i), new.Index(j)) {
-						return fmt.Sprintf("%s[%d]: None (unchanged) but old[%d] != new[%d]", p, x, i, j)
-					}
-					i, j = i+1, j+1
-					continue
-				}
-				vd, ok := el.(diff.ValueDiff)
-				if !ok {
-					return fmt.Sprintf("%s[%d]: is a %T", p, x, el)
-				}
-				if lit, ok := vd.(*diff.LiteralDiff); ok {
-					lo, lok := lit.Old().(starlark.Sliceable)
-					ln, nok := lit.New().(starlark.Sliceable)
-					_, oStr := old.(starlark.String)
-					_, oByt := old.(starlark.Bytes)
-					_, nStr := new.(starlark.String)
-					_, nByt := new.(starlark.Bytes)
-					if lok && nok && (oStr || oByt) && (nStr || nByt) {
-						// run literal: consumes its lengths from both sides
-						if i+lo.Len() > old.Len() || j+ln.Len() > new.Len() {
-							return fmt.Sprintf("%s[%d]: literal run overruns", p, x)
-						}
-						for y := 0; y < lo.Len(); y++ {
-							if !equal(lo.Index(y), old.Index(i+y)) {
-								return fmt.Sprintf("%s[%d]: literal old side %s is not old[%d:]", p, x, trunc(lo), i)
-							}
-						}
-						for y := 0; y < ln.Len(); y++ {
-							if !equal(ln.Index(y), new.Index(j+y)) {
-								return fmt.Sprintf("%s[%d]: literal new side %s is not new[%d:]", p, x, trunc(ln), j)
-							}
-						}
-						if lo.Len() == 0 && ln.Len() == 0 {
-							return fmt.Sprintf("%s[%d]: empty literal replacement", p, x)
-						}
-						i, j = i+lo.Len(), j+ln.Len()
-						continue
-					}
-				}
-				if i >= old.Len() || j >= new.Len() {
-					return fmt.Sprintf("%s[%d]: replacement overruns (i=%d/%d j=%d/%d)", p, x, i, old.Len(), j, new.Len())
-				}
-				if equal(old.Index(i), new.Index(j)) {
-					return fmt.Sprintf("%s[%d]: a diff is reported for equal elements old[%d], new[%d]", p, x, i, j)
-				}
-				if msg := ck.faithful(vd, old.Index(i), new.Index(j), fmt.Sprintf("%s[%d]", p, x)); msg != "" {
-					return msg
-				}
-				i, j = i+1, j+1
-			}
-		default:
-			return fmt.Sprintf("%s: unknown edit kind %q", p, e.Kind())
-		}
-	}
-	if i != old.Len() || j != new.Len() {
-		return fmt.Sprintf("%s: edits reproduce %d of %d old elements and %d of %d new elements", path, i, old.Len(), j, new.Len())
-	}
-	return ""
-}
-
-func (ck *checker) mapping(d *diff.MappingDiff, old, new starlark.IterableMapping, path string) string {
-	edits := d.Edits()
-	count := 0
-	for _, kv := range old.Items() {
-		k, ov := kv[0], kv[1]
-		nv, has, _ := new.Get(k)
-		ev, hasEdit, _ := edits.Get(k)
-		p := fmt.Sprintf("%s[%s]", path, trunc(k))
-		if !has {
-			e, ok := ev.(*diff.Edit)
-			if !hasEdit || !ok || e.Kind() != diff.EditKindDelete || e.Len() != 1 || !same(e.Index(0), ov) {
-				return fmt.Sprintf("%s: removed key has edit %v, want delete of %s", p, ev, trunc(ov))
-			}
-			count++
-			continue
-		}
-		if equal(ov, nv) {
-			if hasEdit {
-				return fmt.Sprintf("%s: unchanged key has an edit %v", p, ev)
-			}
-			continue
-		}
-		e, ok := ev.(*diff.Edit)
-		if !hasEdit || !ok || e.Kind() != diff.EditKindReplace || e.Len() != 1 {
-			return fmt.Sprintf("%s: changed key has edit %v, want a replace", p, ev)
-		}
-		vd, ok := e.Index(0).(diff.ValueDiff)
-		if !ok {
-			return fmt.Sprintf("%s: replace payload is a %T", p, e.Index(0))
-		}
-		if msg := ck.faithful(vd, ov, nv, p); msg != "" {
-			return msg
-		}
-		count++
-	}
-	for _, kv := range new.Items() {
-		k, nv := kv[0], kv[1]
-		if _, has, _ := old.Get(k); has {
-			continue
-		}
-		ev, hasEdit, _ := edits.Get(k)
-		e, ok := ev.(*diff.Edit)
-		if !hasEdit || !ok || e.Kind() != diff.EditKindAdd || e.Len() != 1 || !same(e.Index(0), nv) {
-			return fmt.Sprintf("%s[%s]: added key has edit %v, want add of %s", path, trunc(k), ev, trunc(nv))
-		}
-		count++
-	}
-	n := 0
-	it := edits.Iterate()
-	var k starlark.Value
-	for it.Next(&k) {
-		n++
-	}
-	it.Done()
-	if n != count {
-		return fmt.Sprintf("%s: %d edits for %d added/removed/changed keys", path, n, count)
-	}
-	return ""
-}
-
-func trunc(v starlark.Value) string {
-	if v == nil {
-		return "<nil>"
-	}
-	s := v.String()
-	if len(s) > 80 {
-		s = s[:80] + "..."
-	}
-	return v.Type() + " " + s
-}
-
 func exec(c Case) (v ev.Verdict) {
 	defer func() {
 		if r := recover(); r != nil {
@@ -504,15 +274,15 @@ func exec(c Case) (v ev.Verdict) {
 		return v
 	}
 	if d == nil {
-		return ev.Failf("nil-diff-of-unequal", "Diff of unequal values %s and %s is empty", trunc(old), trunc(nv))
+		return ev.Failf("nil-diff-of-unequal", "Diff of unequal values %s and %s is empty", diffcheck.Trunc(old), diffcheck.Trunc(nv))
 	}
-	ck := &checker{}
-	if msg := ck.faithful(d, old, nv, "$"); msg != "" {
+	ck := &diffcheck.Checker{}
+	if msg := ck.Faithful(d, old, nv, "$"); msg != "" {
 		sig := "unfaithful"
-		out := ev.Failf(sig, "%s\n old=%s\n new=%s\n diff=%s", msg, trunc(old), trunc(nv), trunc(d))
+		out := ev.Failf(sig, "%s\n old=%s\n new=%s\n diff=%s", msg, diffcheck.Trunc(old), diffcheck.Trunc(nv), diffcheck.Trunc(d))
 		return out
 	}
-	v.NonTrivial = ck.seqPairs > 0
+	v.NonTrivial = ck.SeqPairs > 0
 	return v
 }
 
